@@ -24,10 +24,12 @@ var c09ReqHdrs = []map[string]string{{}, {"X-K": "v"}, {"X-K": "w"}, {"X-K": ""}
 	// a header sent in several fields (the values are separated by 0x1f here): the first field is the one http.Header.Get reports
 	{"X-K": "v\x1fw"}, {"X-K": "w\x1fv"}, {"X-K": "\x1f"},
 	// two constrained headers whose expressions disagree on each other's values, straight and crossed
-	{"X-K": "v", "Y-K": "w"}, {"X-K": "w", "Y-K": "v"}}
+	{"X-K": "v", "Y-K": "w"}, {"X-K": "w", "Y-K": "v"}, {"X-K": "vw"}}
 
 // c09HdrSetsRespec: the constraint sets of the re-specification histories (one more than the BFS alphabet)
-var c09HdrSetsRespec = append(append([][]string{}, c09HdrSets...), []string{"X-K", "^v$", "Y-K", "^w$"})
+var c09HdrSetsRespec = append(append([][]string{}, c09HdrSets...), []string{"X-K", "^v$", "Y-K", "^w$"},
+	// one header constrained twice, under two spellings of its name: both expressions gate the route
+	[]string{"x-k", "^v", "X-K", "w$"})
 var c09Paths = []string{"/s", "/o", "/o/t", "/o/u", "/d/v", "/e", "/e/v", "/zz", "/o/", "//s", "/d/v/w"}
 var c09Methods = []string{"GET", "POST", "PUT"}
 
